@@ -363,7 +363,95 @@ func (e *Engine) assignsMemNames(vc *VC, con *Contract, a SExpr) ([]string, bool
 			}
 		}
 	}
+	// heap locations: derive the cell kinds from the static type of the lvalue
+	if fn := e.funcsByKey[con.Key()]; fn != nil {
+		names := map[string]bool{}
+		if e.lvalueKinds(vc, fn, a, names) {
+			var out []string
+			for n := range names {
+				out = append(out, n)
+			}
+			return out, true
+		}
+	}
 	return nil, false
+}
+
+// staticTypeOf computes the Go type of a (pure field/deref/index) spec expression from the callee's
+// parameter types, without evaluating it.
+func (e *Engine) staticTypeOf(fn *ssa.Function, x SExpr) types.Type {
+	switch t := x.(type) {
+	case *SIdent:
+		for _, p := range fn.Params {
+			if p.Name() == t.Name {
+				return p.Type()
+			}
+		}
+		if t.Name == "recv" && fn.Signature.Recv() != nil && len(fn.Params) > 0 {
+			return fn.Params[0].Type()
+		}
+	case *SSel:
+		bt := e.staticTypeOf(fn, t.X)
+		if bt == nil {
+			return nil
+		}
+		obj, _, _ := types.LookupFieldOrMethod(bt, true, fn.Pkg.Pkg, t.Name)
+		if obj == nil {
+			obj, _ = lookupFieldAnyPkg(bt, t.Name)
+		}
+		if v, ok := obj.(*types.Var); ok {
+			return v.Type()
+		}
+	case *SUnary:
+		if t.Op == "*" {
+			if bt := e.staticTypeOf(fn, t.X); bt != nil {
+				if p, ok := bt.Underlying().(*types.Pointer); ok {
+					return p.Elem()
+				}
+			}
+		}
+	case *SIndex:
+		if bt := e.staticTypeOf(fn, t.X); bt != nil {
+			if sl, ok := bt.Underlying().(*types.Slice); ok {
+				return sl.Elem()
+			}
+		}
+	}
+	return nil
+}
+
+func (e *Engine) lvalueKinds(vc *VC, fn *ssa.Function, a SExpr, names map[string]bool) (ok bool) {
+	if fn.Pkg == nil {
+		return false
+	}
+	defer func() {
+		if r := recover(); r != nil {
+			ok = false
+		}
+	}()
+	if c, isCall := a.(*SCall); isCall {
+		if id, isId := c.Fun.(*SIdent); isId && (id.Name == "elems" || id.Name == "obj") && len(c.Args) == 1 {
+			bt := e.staticTypeOf(fn, c.Args[0])
+			if bt == nil {
+				return false
+			}
+			switch u := bt.Underlying().(type) {
+			case *types.Slice:
+				vc.memNamesOf(u.Elem(), names)
+				return true
+			case *types.Pointer:
+				vc.memNamesOf(u.Elem(), names)
+				return true
+			}
+		}
+		return false
+	}
+	ty := e.staticTypeOf(fn, a)
+	if ty == nil {
+		return false
+	}
+	vc.memNamesOf(ty, names)
+	return true
 }
 
 // initNonNil reports whether package variable g (of interface or pointer type) is assigned exactly
